@@ -470,7 +470,7 @@ def r3(ctx, sc):
                         dd = fn.def_of(val)
                         return dd is not None and dd.op == 'load' and cell_role(a.loc(dd.ops[0])) == 'CBUFP'
                     def is_end(val):
-                        g = gep_parts(sc, fn, val)
+                        g = gep_parts(sc, fn, c03.through_temp(fn, val))
                         return bool(g) and g[1] == 'CHBUF' and isinstance(g[2], tuple) and cell_role(g[2]) == 'NCHARS' and not saved_in_buffer(g[2]) and g[3] == 0
                     if not ((is_scanptr(x) and is_end(y)) or (is_scanptr(y) and is_end(x))): continue
                     sides = [t for t in cfg.succ[b] if cfg.dominates(t, call.blk)]
